@@ -12,6 +12,8 @@ mod c11;
 mod c03;
 mod c18;
 mod c12;
+mod c08;
+mod c09;
 mod c19;
 mod ring;
 mod sched;
@@ -36,6 +38,9 @@ fn make(prop: &str) -> Option<Box<dyn Interp>> {
         "C03" => Some(Box::new(c03::C03::default())),
         "C18" => Some(Box::new(c18::C18::default())),
         "C12" => Some(Box::new(c12::C12::default())),
+        "C08" => Some(Box::new(c08::C08::default())),
+        "C09" => Some(Box::new(c09::C09::default())),
+        "C15" => Some(Box::new(c08::C08::default())),
         "C19" => Some(Box::new(c19::C19::default())),
         "C04" | "C05" | "C06" | "C13" | "C14" => Some(Box::new(ring::Ring::default())),
         _ => None,
